@@ -1,2 +1,64 @@
-From BMC Require Import Base.
-Theorem C06_placeholder : True. Proof. exact I. Qed.
+(* C06 — Requests are encoded exactly as the IPMI and DCMI specifications define.
+   Library side: [ser_request] (every SerializeTo of a request layer), [ser_opensessionreq], [ser_rakp1],
+   [ser_rakp3], [ser_message], [sessionless_command_packet] / [payload_packet] (buildAndSendCommand /
+   buildAndSendPayload) — compared with the Go code on every generated request by the C06 check.
+   Specification side (module SpecParse, written from the tables of IPMI v2.0 13.x/22.x and DCMI 1.5 6.x):
+   [request_body], [lan_request], [datagram], [open_session_request], [rakp_message_1], [rakp_message_3].
+   [wf_request]: the caller's field values are in the ranges the specification gives the fields. *)
+From BMC Require Import Base Prim Layers Layers2 Serialize SpecRequests Packet RequestProofs.
+From BMCProps Require Import Tie.
+Import SpecParse.
+
+(* every request body, for all field values: the specification parser reads back the caller's fields *)
+Theorem C06_request_bodies : forall r bs,
+  wf_request r = true -> ser_request r [] = Ok bs -> request_body (kind_of r) bs = Some r.
+Proof. exact request_body_roundtrip. Qed.
+(* the IPMI message: addresses 20h/81h, NetFn/LUN, sequence, command, group-extension body code, two valid
+   two's-complement checksums, data = the body *)
+Theorem C06_message : forall o lun body m bs,
+  op_fn o < 64 -> op_fn o mod 2 = 0 -> op_fn o <> 0x2e -> op_cmd o < 256 -> lun < 4 ->
+  (op_fn o = 0x2c -> op_body o < 256) ->
+  ser_message (request_message o lun) body = Ok (m, bs) ->
+  lan_request bs = Some (expected_lanreq o lun body).
+Proof. exact lan_request_roundtrip. Qed.
+(* the composed datagram outside a session: RMCP (version 6, sequence FFh, class IPMI), null v2.0 wrapper with
+   payload type IPMI and the exact length, the message *)
+Theorem C06_sessionless_datagram : forall o lun body pkt,
+  op_fn o < 64 -> op_fn o mod 2 = 0 -> op_fn o <> 0x2e -> op_cmd o < 256 -> lun < 4 ->
+  (op_fn o = 0x2c -> op_body o < 256) ->
+  request_message_length o body < 65536 ->
+  sessionless_command_packet o lun body = Ok pkt ->
+  exists w, datagram pkt = Some w /\ w_ptype w = 0 /\ w_id w = 0 /\ w_seq w = 0 /\
+            w_encrypted w = false /\ w_authenticated w = false /\ w_trailer w = [] /\
+            lan_request (w_payload w) = Some (expected_lanreq o lun body).
+Proof. exact sessionless_datagram. Qed.
+(* RMCP+ setup payloads: wrapper with the payload's type and length, payload untouched *)
+Theorem C06_setup_datagram : forall ptype payload pkt,
+  ptype = 0x10 \/ ptype = 0x12 \/ ptype = 0x14 -> N.of_nat (length payload) < 65536 ->
+  payload_packet ptype payload = Ok pkt ->
+  exists w, datagram pkt = Some w /\ w_ptype w = ptype /\ w_id w = 0 /\ w_seq w = 0 /\
+            w_encrypted w = false /\ w_authenticated w = false /\ w_trailer w = [] /\ w_payload w = payload.
+Proof. exact setup_datagram. Qed.
+Theorem C06_open_session_request : forall v bs,
+  oq_tag v < 256 -> oq_maxpriv v < 16 -> oq_id v < 4294967296 ->
+  ap_wildcard (oq_auth v) = false -> ap_alg (oq_auth v) < 64 ->
+  ap_wildcard (oq_integ v) = false -> ap_alg (oq_integ v) < 64 ->
+  ap_wildcard (oq_conf v) = false -> ap_alg (oq_conf v) < 64 ->
+  ser_opensessionreq v [] = Ok bs -> open_session_request bs = Some v.
+Proof. exact open_request_roundtrip. Qed.
+Theorem C06_rakp1 : forall v bs,
+  r1_tag v < 256 -> r1_maxpriv v < 16 -> r1_bmc_id v < 4294967296 ->
+  length (r1_random v) = 16%nat -> (length (r1_username v) <= 16)%nat ->
+  ser_rakp1 v [] = Ok bs -> rakp_message_1 bs = Some v.
+Proof. exact rakp1_roundtrip. Qed.
+Theorem C06_rakp3 : forall v bs,
+  r3_tag v < 256 -> r3_status v < 256 -> r3_bmc_id v < 4294967296 -> (r3_authcode v <> [] -> r3_status v = 0) ->
+  ser_rakp3 v [] = Ok bs -> rakp_message_3 bs = Some v.
+Proof. exact rakp3_roundtrip. Qed.
+(* a user name longer than 16 bytes is an error, not a truncation *)
+Theorem C06_long_username_refused : forall v buf, (16 < length (r1_username v))%nat -> ser_rakp1 v buf = Err.
+Proof. exact rakp1_long_username_refused. Qed.
+(* the operation table in the source now is the specification's command table (NetFn, command, body code) *)
+Theorem C06_operation_table_tie :
+  forallb (fun c => opt_eqb (cmd_op (code_name c)) (spec_row c)) all_commands = true /\ (forall c, In c all_commands).
+Proof. exact (conj tie_operation_table all_commands_complete). Qed.
